@@ -19,6 +19,7 @@ import Fir.Props.C06
 import Fir.Proofs.IeeeLemmas
 import Fir.Proofs.SimdU8x4Lemmas
 import Fir.Proofs.SimdVertU8Lemmas
+import Fir.Proofs.SimdU8x3Lemmas
 
 namespace Fir.C02
 open Fir
@@ -322,5 +323,20 @@ theorem u8x4_one_row_avx2_eq_sse4 (p : Nat) (hp2 : 2 ≤ p) (hp : p < 32) (row :
 
 theorem u8x4_avx2_one_row_source_as_modelled : Fir.Gen.u8x4_avx2_one_row_skeleton =
     "_mm_set1_epi32(1 << (PRECISION - 1)) ; _mm256_set1_epi32(1 << (PRECISION - 2)) ; chunks_exact(8) ; remainder() ; simd_utils::loadu_si128(k, 0) ; _mm256_insertf128_si256::<1>(_mm256_castsi128_si256(tmp), tmp) ; simd_utils::loadu_si256(src_row, x) ; _mm256_shuffle_epi8(source, sh1) ; _mm256_shuffle_epi8(ksource, sh2) ; _mm256_add_epi32(sss256, _mm256_madd_epi16(pix, mmk)) ; _mm256_shuffle_epi8(source, sh3) ; _mm256_shuffle_epi8(ksource, sh4) ; _mm256_add_epi32(sss256, _mm256_madd_epi16(pix, mmk)) ; chunks_exact(4) ; remainder() ; simd_utils::loadl_epi64(k, 0) ; _mm256_insertf128_si256::<1>(_mm256_castsi128_si256(tmp), tmp) ; simd_utils::loadu_si128(src_row, x) ; _mm256_insertf128_si256::<1>(_mm256_castsi128_si256(tmp), tmp) ; _mm256_shuffle_epi8(source, sh5) ; _mm256_shuffle_epi8(ksource, sh6) ; _mm256_add_epi32(sss256, _mm256_madd_epi16(pix, mmk)) ; _mm_add_epi32(_mm256_extracti128_si256::<0>(sss256), _mm256_extracti128_si256::<1>(sss256),) ; chunks_exact(2) ; remainder() ; simd_utils::mm_load_and_clone_i16x2(k) ; simd_utils::loadl_epi64(src_row, x) ; _mm_shuffle_epi8(source, sh7) ; _mm_add_epi32(sss, _mm_madd_epi16(pix, mmk)) ; first() ; simd_utils::mm_cvtepu8_epi32(src_row, x) ; _mm_set1_epi32(k as i32) ; _mm_add_epi32(sss, _mm_madd_epi16(pix, mmk)) ; _mm_srai_epi32::<PRECISION>(sss) ; _mm_packs_epi32(sss, sss) ; _mm_cvtsi128_si32(_mm_packus_epi16(sss, sss))" := by rfl
+
+/-! ### RGB8: the SSE4.1 one-row kernel of U8x3 (`horiz_convolution_one_row` of src/convolution/u8x3/sse4.rs)
+
+    Three bytes per pixel: the 16- and 8-byte loads cover fractions of pixels and the kernel leaves its 4- and
+    2-coefficient loops as soon as such a load would pass the end of the row.  `Fir.SimdU8x3.pixel p w ..` keeps these
+    data-dependent exits (`w` = row width); masks `pix_sh1`, `coef_sh1`, `pix_sh2`, `coef_sh2` from the source. -/
+
+theorem u8x3_sse4_one_row_eq_portable (p w : Nat) (hp : p < 32) (row : List Int) (start : Nat) (ks : List Int) :
+    Fir.SimdU8x3.pixel p w row start ks
+      = [clip8 (2 ^ (p - 1) + Fir.SimdU8x3.dotC3 row 0 ks start) p, clip8 (2 ^ (p - 1) + Fir.SimdU8x3.dotC3 row 1 ks start) p,
+         clip8 (2 ^ (p - 1) + Fir.SimdU8x3.dotC3 row 2 ks start) p] :=
+  Fir.Proofs.u8x3_sse4_pixel_eq_portable p w hp row start ks
+
+theorem u8x3_sse4_one_row_source_as_modelled : Fir.Gen.u8x3_sse4_one_row_skeleton =
+    "_mm_set1_epi32(1 << (PRECISION - 1)) ; saturating_sub(5) ; chunks_exact(4) ; simd_utils::loadl_epi64(k, 0) ; simd_utils::loadu_si128(src_row, x) ; _mm_shuffle_epi8(source, pix_sh1) ; _mm_shuffle_epi8(ksource, coef_sh1) ; _mm_add_epi32(sss, _mm_madd_epi16(pix, mmk)) ; _mm_shuffle_epi8(source, pix_sh2) ; _mm_shuffle_epi8(ksource, coef_sh2) ; _mm_add_epi32(sss, _mm_madd_epi16(pix, mmk)) ; saturating_sub(2) ; chunks_exact(2) ; simd_utils::mm_load_and_clone_i16x2(k) ; simd_utils::loadl_epi64(src_row, x) ; _mm_shuffle_epi8(source, pix_sh1) ; _mm_add_epi32(sss, _mm_madd_epi16(pix, mmk)) ; split_at(x - x_start) ; simd_utils::mm_cvtepu8_epi32_u8x3(src_row, x) ; _mm_set1_epi32(k as i32) ; _mm_add_epi32(sss, _mm_madd_epi16(pix, mmk)) ; _mm_srai_epi32::<PRECISION>(sss) ; _mm_packs_epi32(sss, sss) ; _mm_cvtsi128_si32(_mm_packus_epi16(sss, sss)) | if x < max_x ; if x >= max_x ; if x < max_x ; if x >= max_x" := by rfl
 
 end Fir.C02
